@@ -41,7 +41,9 @@ type tierCfg struct {
 	PerRunTimeout time.Duration
 }
 
-var tiers = map[string]tierCfg{}
+var tiers = map[string]tierCfg{
+	"C07": {QuickRuns: 6400, ThoroughRuns: 300000, Workers: 16, Race: true, RaceQuick: 400, RaceThorough: 20000},
+}
 
 func cfgFor(id string) tierCfg {
 	if c, ok := tiers[id]; ok {
@@ -400,6 +402,8 @@ func cmdCheck(id string, tier string, seed int64, keep bool) int {
 		}
 		if st.Failed {
 			failures = append(failures, r)
+		} else if r.err != nil && r.race && len(collectRace(r.dir)) > 0 {
+			// a race worker stops at its first report: that is a result, not trouble
 		} else if r.err != nil {
 			trouble = append(trouble, fmt.Sprintf("worker %d failed without a recorded violation (%v):\n%s", r.idx, r.err, tail(r.output, 3000)))
 		}
@@ -459,6 +463,10 @@ func cmdCheck(id string, tier string, seed int64, keep bool) int {
 		path := filepath.Join(dir, fmt.Sprintf("%s-seed%d-race-%x.txt", id, seed, splitmix(uint64(len(rep)))&0xffff))
 		os.WriteFile(path, []byte(rep), 0o644)
 		sig := raceSig(rep)
+		if !raceRelevant(id, rep) {
+			fmt.Fprintf(os.Stderr, "verif: note: race report outside the property's scope kept as diagnostic: %s (%s)\n", sig, path)
+			continue
+		}
 		if isKnown(id, sig) {
 			agg.Known[sig]++
 			continue
